@@ -8,6 +8,7 @@ import (
 
 	"github.com/google/uuid"
 	"github.com/hydraide/hydraide/app/panichandler"
+	"github.com/hydraide/hydraide/app/verifhook"
 )
 
 type Lock interface {
@@ -79,6 +80,9 @@ func (q *queue) enqueue(c *caller) {
 	if wasEmpty {
 		close(c.ready)
 	}
+	if verifhook.Enabled {
+		verifhook.Trace("lock.enq", "q", q, "id", c.id, "head", wasEmpty, "ids", verifQueueIDs(q))
+	}
 }
 
 // remove deletes the caller with the given id from the queue. If the removed
@@ -87,6 +91,9 @@ func (q *queue) enqueue(c *caller) {
 func (q *queue) remove(id string) bool {
 	q.mu.Lock()
 	defer q.mu.Unlock()
+	if verifhook.Enabled {
+		defer verifTraceRemove(q, id, verifQueueIDs(q))()
+	}
 	for i, c := range q.callers {
 		if c.id != id {
 			continue
@@ -125,11 +132,15 @@ func (l *lock) Lock(ctx context.Context, key string, ttl time.Duration) (lockID 
 
 	q := l.getQueue(key)
 	q.enqueue(c)
+	verifhook.Yield("lock.enqueued", lockID)
 
 	// Wait until either we become the head of the queue (ready closed),
 	// or the caller's context is done.
 	select {
 	case <-c.ready:
+		if verifhook.Enabled {
+			verifhook.Trace("lock.grant", "id", lockID, "key", key, "ttl", int64(ttl))
+		}
 		// We hold the lock now. Start the auto-release watchdog: if the caller
 		// forgets to Unlock or crashes, the TTL will release the lock and
 		// wake the next waiter. The watchdog uses a fresh background context
@@ -138,8 +149,13 @@ func (l *lock) Lock(ctx context.Context, key string, ttl time.Duration) (lockID 
 		panichandler.SafeGo("auto-unlock", func() {
 			t := time.NewTimer(ttl)
 			defer t.Stop()
+			if verifhook.Enabled {
+				verifhook.Trace("lock.watchdog.start", "id", lockID)
+				defer verifhook.Trace("lock.watchdog.exit", "id", lockID)
+			}
 			select {
 			case <-t.C:
+				verifhook.Yield("lock.ttl", lockID)
 				q.remove(lockID)
 			case <-c.done:
 				// Unlock (or another remove) already took us out;
@@ -149,6 +165,7 @@ func (l *lock) Lock(ctx context.Context, key string, ttl time.Duration) (lockID 
 		return lockID, nil
 
 	case <-ctx.Done():
+		verifhook.Yield("lock.cancelled", lockID)
 		// We never acquired the lock. Remove ourselves from the queue.
 		// If we happened to land at the head between enqueue and select
 		// (race window: enqueue closed our ready right after we entered
@@ -174,4 +191,24 @@ func (l *lock) Unlock(key string, lockID string) error {
 		return errors.New("caller not found")
 	}
 	return nil
+}
+
+// verifTraceRemove emits the lock.rem trace event of one queue.remove call when the call returns, still
+// under q.mu (it is deferred after the Unlock): the id, whether an entry left the queue, and the queue
+// before / after. Only used by the verification hooks (build tag `verif`).
+func verifTraceRemove(q *queue, id string, before []string) func() {
+	return func() {
+		after := verifQueueIDs(q)
+		verifhook.Trace("lock.rem", "q", q, "id", id, "found", len(after) < len(before), "before", before, "ids", after)
+	}
+}
+
+// verifQueueIDs returns the ids queued in q, head first (used only by the verification trace
+// hooks, which are compiled out without the `verif` build tag). The caller holds q.mu.
+func verifQueueIDs(q *queue) []string {
+	ids := make([]string, len(q.callers))
+	for i, c := range q.callers {
+		ids[i] = c.id
+	}
+	return ids
 }
